@@ -330,6 +330,35 @@ def finishPending (st : Inner) (off : Nat) : Option Inner :=
       some { st with pending := none, symbols := st.symbols ++ [(addr, ⟨1, (off - fo) % pow32, fo⟩)] }
     else none
 
+/-- which branch of the `if let … else if let …` cascade of `process_line` (index.rs:607-642) a
+(CR-stripped) line takes -/
+inductive LineClass
+  | file (idx : Nat)
+  | origin (idx : Nat)
+  | pub (addr : Nat)
+  | func (addr : Nat)
+  | info
+  | stack
+  | other
+deriving Repr, DecidableEq
+
+def classify (input : List Byte) : LineClass :=
+  match fileLine input with
+  | some (idx, _) => .file idx
+  | none =>
+  match inlineOriginLine input with
+  | some (idx, _) => .origin idx
+  | none =>
+  match publicLine input with
+  | some (addr, _) => .pub addr
+  | none =>
+  match funcLine input with
+  | some (addr, _, _) => .func addr
+  | none =>
+    if (tag tINFO_ input).isSome then .info
+    else if (tag tSTACK_ input).isSome then .stack
+    else .other
+
 /-- `process_line` (index.rs:588-643) -/
 def processLine (st : Inner) (off : Nat) (line : List Byte) : Option Inner :=
   let input := stripCR line
@@ -337,24 +366,17 @@ def processLine (st : Inner) (off : Nat) (line : List Byte) : Option Inner :=
     some { st with hasModule := (moduleLine input).isSome, moduleInfoBytes := input }
   else
     let lineLen := input.length % pow32
-    match fileLine input with
-    | some (idx, _) => some { st with files := st.files.push ⟨idx, lineLen, off⟩ }
-    | none =>
-    match inlineOriginLine input with
-    | some (idx, _) => some { st with origins := st.origins.push ⟨idx, lineLen, off⟩ }
-    | none =>
-    match publicLine input with
-    | some (addr, _) =>
+    match classify input with
+    | .file idx => some { st with files := st.files.push ⟨idx, lineLen, off⟩ }
+    | .origin idx => some { st with origins := st.origins.push ⟨idx, lineLen, off⟩ }
+    | .pub addr =>
       (finishPending st off).map fun st => { st with symbols := st.symbols ++ [(addr, ⟨0, lineLen, off⟩)] }
-    | none =>
-    match funcLine input with
-    | some (addr, _, _) => (finishPending st off).map fun st => { st with pending := some (addr, off) }
-    | none =>
-      if (tag tINFO_ input).isSome then
-        (finishPending st off).map fun st =>
-          { st with moduleInfoBytes := st.moduleInfoBytes ++ 10 :: input }
-      else if (tag tSTACK_ input).isSome then finishPending st off
-      else some st
+    | .func addr => (finishPending st off).map fun st => { st with pending := some (addr, off) }
+    | .info =>
+      (finishPending st off).map fun st =>
+        { st with moduleInfoBytes := st.moduleInfoBytes ++ 10 :: input }
+    | .stack => finishPending st off
+    | .other => some st
 
 /-- the callback log of the line buffer, fed to `process_line` in order -/
 def processLog (st : Inner) : Log → Option Inner
